@@ -117,7 +117,7 @@ class ExceptIf(ConclusionSelector):
                 continue
 
             if self._caching_enabled_() and self.right_cache.check(left_value):
-                yield from self.yield_final_output_from_cache(left_value, self.right_cache)
+                yield from self.yield_final_output_from_cache(left_value, self.right_cache, yield_when_false=False)
                 continue
 
             right_yielded = False
